@@ -291,6 +291,58 @@ func (dp *dumper) out(b bo.Box, depth int) string {
 	return fmt.Sprintf("(Nd %d %s %d %d %s %s [%s])", ty, vlib.Z(dp.elIndex(f)), pseudoCode(f.PseudoType), bits, nums, text, strings.Join(kids, ";"))
 }
 
+// ---------------------------------------------------------------- structural tags: cells sharing a grid slot
+
+// For every row group of every table of the tree: the pairs of cells whose slot rectangles
+// (GridX, row index, Colspan, Rowspan) intersect, classified.  "colspan-over-rowspan" is the construct of the known
+// finding: the later cell spans columns (colspan > 1), starts strictly left of the earlier one, which comes from a
+// row above and spans rows (rowspan > 1).  Anything else is "other".
+func slotOverlapTags(root bo.Box) []string {
+	found := map[string]bool{}
+	var walk func(b bo.Box)
+	walk = func(b bo.Box) {
+		if b.Box().IsRunning() {
+			// running elements are opaque (not fixed up), as in Box/BoxWf.v
+			return
+		}
+		if _, ok := b.(bo.TableBoxITF); ok {
+			for _, g := range b.Box().Children {
+				if g.Type() != bo.TableRowGroupT {
+					continue
+				}
+				type slot struct{ x, y, w, h int }
+				var slots []slot
+				for y, r := range g.Box().Children {
+					for _, c := range r.Box().Children {
+						f := c.Box()
+						slots = append(slots, slot{f.GridX, y, f.Colspan, f.Rowspan})
+					}
+				}
+				for i, a := range slots {
+					for _, c := range slots[i+1:] {
+						if a.x < c.x+c.w && c.x < a.x+a.w && a.y < c.y+c.h && c.y < a.y+a.h {
+							if a.y < c.y && a.h > 1 && c.w > 1 && c.x < a.x {
+								found["slot-overlap:colspan-over-rowspan"] = true
+							} else {
+								found["slot-overlap:other"] = true
+							}
+						}
+					}
+				}
+			}
+		}
+		for _, c := range b.Box().Children {
+			walk(c)
+		}
+	}
+	walk(root)
+	var out []string
+	for t := range found {
+		out = append(out, t)
+	}
+	return out
+}
+
 // ---------------------------------------------------------------- generator
 
 var displays = []string{
@@ -622,6 +674,7 @@ func runDoc(src string, kind string, tags []string) (vlib.Case, bool) {
 	if o.Status == "ok" {
 		dpOut.desc.WriteString("AFTER BuildFormattingStructure\n")
 		outTerm = dpOut.out(outBox, 0)
+		tags = append(tags, slotOverlapTags(outBox)...)
 	} else {
 		status = 1
 		tags = append(tags, "impl-panic")
